@@ -12,6 +12,9 @@ for d in sorted(glob.glob(os.path.join(ROOT, "seeded", "C*"))):
     notes = m.get("needs_to_manifest", "")
     what = SUMM.get(m["seed"]) or re.sub(r"[#*`|]", "", notes)[:150]
     det = ", ".join(m.get("detected_by_quick_check") or []) or "—"
+    if os.path.exists(os.path.join(d, "OBSOLETE")):
+        det = "(obsolete: " + open(os.path.join(d, "OBSOLETE")).read().strip() + ")"
+        m["missed_by"] = ""
     rows.append("| %s | %s | %s | %s |" % (m["seed"], what.strip(), det, m.get("missed_by") or ""))
 table = "| seed | change (from the author's notes) | caught by quick check | missed by |\n|---|---|---|---|\n" + "\n".join(rows)
 p = os.path.join(ROOT, "DESIGN.md")
